@@ -29,8 +29,39 @@ type Oblig struct {
 	Note  string
 	// Report terms: values to print from a model.
 	Report map[string]*smt.Term
-	// Except: known-finding exception applied.
 	Trivial bool
+	pc      *pcNode
+	Seq     int
+}
+
+// PCLen is the number of hypotheses.
+func (o *Oblig) PCLen() int { return lenPC(o.pc) }
+
+// HypList returns the hypotheses (path condition) of the obligation.
+func (o *Oblig) HypList() []*smt.Term {
+	if o.Hyps != nil {
+		return o.Hyps
+	}
+	return o.pc.list()
+}
+
+// Extends reports whether o's path condition extends p's (p's is a prefix).
+func (o *Oblig) Extends(p *Oblig) bool {
+	if o.Hyps != nil || p.Hyps != nil {
+		return false
+	}
+	x := o.pc
+	pn := lenPC(p.pc)
+	for lenPC(x) > pn {
+		x = x.parent
+	}
+	return x == p.pc
+}
+
+// Suffix returns o's hypotheses beyond those of p (requires o.Extends(p)).
+func (o *Oblig) Suffix(p *Oblig) []*smt.Term {
+	all := o.pc.list()
+	return all[lenPC(p.pc):]
 }
 
 // Engine holds the loaded program and contracts.
@@ -69,6 +100,9 @@ type verifyCtx struct {
 	unsupp   []string
 	pathsCut int
 	inlLoops map[*ssa.Function]map[*ssa.BasicBlock]*loopInfo
+	modFields []modField
+	modElems  []modElem
+	modAll    bool
 }
 
 type loopInfo struct {
@@ -224,6 +258,7 @@ func (e *Engine) strConst(v string) StrV {
 	arrName := "K_" + smt.Mangle(name)
 	arr := smt.Var(arrName, smt.IArr)
 	constArrs[arr] = tbl
+	smt.DistinctConsts[arr] = v
 	return StrV{Arr: arr, Off: smt.IntC(0), Len: smt.IntC(int64(len(v)))}
 }
 
@@ -255,16 +290,49 @@ func arrRead(arr, i *smt.Term) *smt.Term {
 	return smt.Select(arr, i)
 }
 
-// constAxioms returns the defining axioms of constant arrays occurring in ts.
+// constAxioms returns the defining axioms of constant arrays that are read
+// through an unresolved select in ts (other uses need only identity, which the
+// simplifier decides).
 func constAxioms(ts []*smt.Term) []*smt.Term {
-	vars, _ := smt.FreeVars(ts)
-	var out []*smt.Term
-	for _, v := range vars {
-		if tbl, ok := constArrs[v]; ok {
-			i := smt.Var("i!ax", smt.Int)
-			sel := smt.Select(v, i)
-			out = append(out, smt.Forall([]*smt.Term{i}, smt.Eq(sel, smt.App(tbl, smt.Int, i)), sel))
+	need := map[*smt.Term]bool{}
+	seen := map[*smt.Term]bool{}
+	var walk func(t *smt.Term)
+	walk = func(t *smt.Term) {
+		if seen[t] {
+			return
 		}
+		seen[t] = true
+		if t.Op == "select" {
+			if _, ok := constArrs[t.Args[0]]; ok {
+				need[t.Args[0]] = true
+			}
+		}
+		if t.Op == "=" && t.Args[0].S == smt.IArr {
+			// equality with a symbolic array: contents may matter
+			for _, a := range t.Args {
+				if _, ok := constArrs[a]; ok {
+					need[a] = true
+				}
+			}
+		}
+		for _, a := range t.Args {
+			walk(a)
+		}
+	}
+	for _, t := range ts {
+		walk(t)
+	}
+	var out []*smt.Term
+	var ks []*smt.Term
+	for k := range need {
+		ks = append(ks, k)
+	}
+	sort.Slice(ks, func(i, j int) bool { return ks[i].Name < ks[j].Name })
+	for _, v := range ks {
+		tbl := constArrs[v]
+		i := smt.Var("i!ax", smt.Int)
+		sel := smt.Select(v, i)
+		out = append(out, smt.Forall([]*smt.Term{i}, smt.Eq(sel, smt.App(tbl, smt.Int, i)), sel))
 	}
 	return out
 }
